@@ -358,7 +358,7 @@ def parse_csv(text, detailed):
         f = ln.split(",")
         m = re.match(r"^(\d{1,7})\.(\d)$", f[0])
         lead = 3 if detailed else 1
-        nums = [to_int(v) if re.match(r"^\d{1,14}$", v) else None for v in f[1:]]
+        nums = [int(v) if re.match(r"^\d{1,14}$", v) else None for v in f[1:]]
         if m and len(f) >= lead and None not in nums:
             rows.append([int(m.group(1)) * 10 + int(m.group(2))] + (nums[:2] if detailed else [-1, -1]) +
                         [[limbs(v) for v in nums[lead - 1:]]])
@@ -853,7 +853,7 @@ def selftest(chk):
         (mut(lambda t: ev(t, "counters")[3]["out"]["header"].__setitem__(3, "dropped_p2p")), "CsvHeaderAsDocumented"),
         (mut(lambda t: ev(t, "counters")[3]["out"]["rows"][0].__setitem__(0, 999)), "TimeColumnIsElapsedTime"),
         (mut(lambda t: ev(t, "counters")[3].__setitem__("errlen", 14)), "SilentPrintsNoPrompts"),
-        (mut(lambda t: ev(t, "info")[3]["out"]["dims"][0].reverse() or ev(t, "info")[3]["out"]["dims"][0].__setitem__(0, 9)), "InfoDimensionsAreMachines"),
+        (mut(lambda t: ev(t, "info")[3]["out"]["dims"][0].__setitem__(0, 9)), "InfoDimensionsAreMachines"),
         (mut(lambda t: ev(t, "info")[3]["out"]["software"][0][3].__setitem__(2, 31)), "InfoSoftwareIsMachines"),
         (mut(lambda t: ev(t, "info")[3]["out"]["dead"][0].__setitem__(0, 77)), "InfoDeadLinksCounted"),
         (mut(lambda t: ev(t, "info")[3]["out"]["apps"][0].__setitem__(2, 99)), "InfoApplicationStatesCounted"),
@@ -872,11 +872,7 @@ def selftest(chk):
         (mut(lambda t: ev(t, "boot")[4].__setitem__("address_given", False)), "BootWaitsUntilMachineIsUp"),
         (mut(lambda t: ev(t, "boot", 1)[3].__setitem__("status", 0)), "AlreadyBootedReported"),
         (mut(lambda t: ev(t, "iobuf")[3].__setitem__("raised", "UnicodeDecodeError")), "NoUndocumentedException"),
-        (mut(lambda t: t["ev"].pop()), "TraceClosed"),
     ]
-    # the last one drops the closing event: the trace then ends without an "end", which TLC cannot reject through a
-    # clause; it shows up as a state count mismatch, so it is checked apart
-    closing = cases.pop()
     rej = chk.validate("ScriptsTrace", "ScriptsTrace.cfg", [c[0] for c in cases])
     got = {id(t): cl for t, _, cl in rej}
     msgs = []
@@ -888,5 +884,4 @@ def selftest(chk):
     rej = chk.validate("ScriptsTrace", "ScriptsTrace.cfg", [moved])
     if not rej or "TraceClosed" not in rej[0][2]:
         msgs.append("an 'end' in the middle of a trace was not rejected by TraceClosed")
-    del closing
     return not msgs, "; ".join(msgs) or "%d corrupted tool sessions rejected with the expected clauses" % len(cases)
